@@ -9,7 +9,7 @@ PROP = dict(
         shrink_budget=80,
         trusted_base=COMMON_TB + [
             "atomicity: every store method runs inside one SQLite transaction with deferred rollback (assumed)",
-            "funding rows are visited in rowid order (SELECT without ORDER BY on contract_account_funding / contract_v2_account_funding); the model keeps rows in insertion order and every run compares the raw tables",
+            "order of the attribution (which funding row first, which category first) is the code's choice and not constrained by C11: the model uses today's order (rowid; storage, ingress, egress, registry read, registry write, rpc); if the code's result differs the driver validates it as an attribution (clause monitors silent, only the debited account's rows shrink, categories grow by at most the debit) instead of predicting it",
             "RHP4CreditAccounts is called with usage.AccountFunding = sum of the deposits; no RPC debits an account with usage.AccountFunding != 0",
             "read-only SQL shim harness/shims/persist/sqlite/zz_verif_accounts.go",
         ],
